@@ -180,6 +180,13 @@ def build_cases(seed, n, want, nphases=4):
                 ph = [initial_phase(proj, cfg=cfgk, seed=seed * 10 + k),
                       {"edits": both, "how": "restart", "cfg": cfgk, "seed": seed * 10 + k + 100, "policy": ["random", "lifo", "fifo", "random"][k]}]
                 cases.append({"tid": f"shape-{name}-all{k}", "project": proj, "phases": ph, "want": want, "seed": seed + k})
+        for k, hist in enumerate(proj.get("extra_histories", [])):
+            for nj in (1, 2):
+                cfgk = {"njob": nj, "resources": "gpu:2,tpu:1"}
+                ph0 = initial_phase(proj, cfg=cfgk, seed=seed + k)
+                ph0["edits"] = list(ph0["edits"]) + list(hist[0])
+                ph = [ph0] + [{"edits": e, "how": "restart", "cfg": cfgk, "seed": seed * 7 + k * 10 + j} for j, e in enumerate(hist[1:])]
+                cases.append({"tid": f"shape-{name}-x{k}j{nj}", "project": proj, "phases": ph, "want": want, "seed": seed + k})
     for i in range(n):
         g = Gen(seed * 100003 + i)
         # C01/C04 need successful final builds to say anything: ample resources, no failing steps,
